@@ -27,6 +27,10 @@ type Check struct {
 	SelfTest func() error
 	// Run performs all explorations of this check for one shard.
 	Run func(c *Ctx)
+	// Post, if set, runs once in the orchestrator after all workers reported
+	// (C19's separate race-detector pass). It returns extra evidence keys,
+	// violations, or an error (framework error).
+	Post func(verifDir, tier string) (map[string]any, []Violation, error)
 	// ReplayInput, if set, runs the check's driver on one given input (used to
 	// confirm and replay crashes, which have no recorded choice sequence).
 	ReplayInput func(x *X, in []byte)
